@@ -71,6 +71,10 @@ def render(lines, layout):
             out.append(s)
         elif k == "alias":
             out.append("@alias %s%s%s" % (ln["of"], eq, ln["name"]))
+        elif k == "context":
+            d = fr(ln["default"])
+            out += ["@context(%s=%s) %s" % (ln["param"], float(d) if d.denominator != 1 else d, ln["name"]),
+                    "    %s -> %s: %s * value * %s * b / a" % (ln["src"], ln["dst"], fr(ln["coef"]), ln["param"]), "@end"]
         elif k == "comment":
             out.append("# a comment line")
         elif k == "blank":
@@ -91,9 +95,14 @@ def load(path_kind, text, T, tmp):
         return pint.UnitRegistry(fn, non_int_type=T)
     if path_kind == "define":
         u = pint.UnitRegistry(None, non_int_type=T)
+        block = False
         for ln in text:
-            if ln.strip() and not ln.strip().startswith("#"):
+            if ln.startswith("@context"):
+                block = True
+            if ln.strip() and not ln.strip().startswith("#") and not block:
                 u.define(ln)
+            if ln.startswith("@end"):
+                block = False
         return u
     if path_kind in ("cold-cache", "warm-cache"):
         cache = os.path.join(tmp, "cache_%d_%s" % (abs(hash(tuple(text))) % 10 ** 9, T.__name__))
@@ -106,9 +115,14 @@ def load(path_kind, text, T, tmp):
     raise ValueError(path_kind)
 
 
-def project(u, names, spellings, prefixes, T):
+def project(u, names, spellings, prefixes, T, ddims=(), ctxs=()):
     """what the loaded registry holds, in the vocabulary of ObsOfFile"""
-    out = {"units": {}, "spell": {}, "prefixes": {}, "sym": {}}
+    out = {"units": {}, "spell": {}, "prefixes": {}, "sym": {}, "ddims": {}, "ctxs": {}}
+    for d in ddims:
+        out["ddims"][d] = {k: F(v) for k, v in u.get_dimensionality(u.UnitsContainer({d: 1})).items()}
+    for c in ctxs:
+        one = T(3) if T is not float else 3.0
+        out["ctxs"][c] = u.Quantity(one, "a").to("b", c).magnitude
     for n in names:
         f, ru = u.get_root_units(n)
         out["units"][n] = {"dim": {k: F(v) for k, v in u.get_dimensionality(n).items()}, "f": f, "root": {k: F(v) for k, v in (1 * ru).unit_items()}}
@@ -156,7 +170,8 @@ def run(chk):
         sig = {"path": path_kind, "type": T.__name__}
         try:
             u = load(path_kind, text, T, tmp)
-            got = project(u, names, sorted(obs["spell"]), sorted(obs["prefixes"]), T)
+            has_ctx = path_kind != "define"          # define() takes single definitions, not blocks
+            got = project(u, names, sorted(obs["spell"]), sorted(obs["prefixes"]), T, sorted(obs["ddims"]), sorted(obs["ctxs"]) if has_ctx else ())
         except Exception as e:
             chk.diverge(dict(sig, clause="load-or-query-raises", exc=type(e).__name__), {"text": text, "path": path_kind, "error": repr(e)[:300]})
             continue
@@ -169,6 +184,13 @@ def run(chk):
             if not close(g["f"], fr(o["f"]), T):
                 kind = "factor-type" if (T is not float and isinstance(g["f"], float)) else "factor"
                 chk.diverge(dict(sig, clause=kind), {"text": text, "unit": n, "expected": fr(o["f"]), "observed": repr(g["f"])})
+        for dn, dv in obs["ddims"].items():
+            if got["ddims"][dn] != {k: fr(v) for k, v in dv}:
+                chk.diverge(dict(sig, clause="derived-dimension"), {"text": text, "dimension": dn, "expected": dv, "observed": repr(got["ddims"][dn])})
+        for cn, cv in obs["ctxs"].items():
+            if cn in got["ctxs"] and not close(got["ctxs"][cn], fr(cv), T):
+                kind = "context-default-type" if (T is not float and isinstance(got["ctxs"][cn], float)) else "context-rule"
+                chk.diverge(dict(sig, clause=kind), {"text": text, "context": cn, "expected": fr(cv), "observed": repr(got["ctxs"][cn])})
         for s, n in obs["spell"].items():
             if got["spell"][s] != n:
                 chk.diverge(dict(sig, clause="spelling"), {"text": text, "spelling": s, "expected": n, "observed": got["spell"][s]})
